@@ -33,6 +33,8 @@ def obs_code(o):
     """0 2xx, 1 4xx, 2 5xx, 3 crash, 4 leak, 5 hang, 6 abort (handler panic: net/http closes the connection)"""
     if o["outcome"] == "skipped":
         return 8
+    if o.get("followup"):
+        return 10
     if o["outcome"] == "crash":
         return 3
     if o["outcome"] == "hang":
@@ -51,7 +53,7 @@ def obs_code(o):
     return 7
 
 
-CODE_NAME = {8: "skipped", 0: "2xx", 1: "4xx", 2: "5xx", 3: "crash", 4: "leak", 5: "hang", 6: "abort", 7: "other-status", 9: "model-undecided"}
+CODE_NAME = {10: "stopped-serving", 8: "skipped", 0: "2xx", 1: "4xx", 2: "5xx", 3: "crash", 4: "leak", 5: "hang", 6: "abort", 7: "other-status", 9: "model-undecided"}
 
 
 def coq_param(p):
@@ -77,10 +79,10 @@ def case_to_coq(c):
         base = min([r["ts"] // 10**9 for r in rws] or [0])
         rows = "(let b := %s in %s)" % (coq_Z(base), coq_list(
             ["row_at b %d %d %d %d %s" % (r["fp"], r["ts"] // 10**9 - base, r["ts"] % 10**9, r["val"], ROWK[r["kind"]]) for r in rws]))
-        subj = "SLoki (mkReq %s %s %s %d %s %s %s %s %s %s %s)" % (
+        subj = "SLoki (mkReq %s %s %s %d %s %s %s %s %s %s %s %s)" % (
             "true" if m["ep"] == "loki_instant" else "false", "true" if m["has_query"] else "false", SHAPES[m["shape"]],
             m["dur_s"], coq_param(m["start"]), coq_param(m["end"]), coq_param(m["step"]), coq_param(m["limit"]), rows,
-            coq_Z(m["fail_after"]), "true" if m["query_err"] else "false")
+            coq_Z(m["fail_after"]), "true" if m["query_err"] else "false", "true" if m.get("boot_fail") else "false")
     return "mkCase %d (%s) %d" % (c["id"], subj, obs_code(c["obs"]))
 
 
@@ -121,8 +123,8 @@ def run_harness(ck, args, tag):
 def strip(c):
     """what goes into a replay file: the request, the script, the observation"""
     d = {k: c[k] for k in ("class", "method", "path", "params", "script") if k in c}
-    for k in ("accept", "body", "ctype", "model", "wait_ms"):
-        if c.get(k):
+    for k in ("accept", "body", "ctype", "model", "wait_ms", "abort_after", "tcp", "ws", "boot", "cold"):
+        if k in c and c[k] not in (None, "", False, {}) :
             d[k] = c[k]
     d["id"] = c["id"]
     d["observed"] = dict(c["obs"], **{"class": CODE_NAME.get(obs_code(c["obs"]), "?")})
@@ -141,6 +143,8 @@ def is_finding_range(c):
 def test_oracle(c):
     """test-only stream: response + liveness + census; the Prometheus range controller rejects step <= 0"""
     code = obs_code(c["obs"])
+    if code == 10:
+        return "a healthy request sent after this one was not served: " + c["obs"]["followup"]
     if code in (3, 4, 5, 6, 7):
         return "no orderly HTTP response: " + CODE_NAME[code]
     if c["class"].startswith("test/prom_range"):
@@ -151,7 +155,7 @@ def test_oracle(c):
     return None
 
 
-GENERATED_THEOREMS = ("reader_unrecovered_goroutines_accounted", "handler_loops_receive_until_close")
+GENERATED_THEOREMS = ("reader_unrecovered_goroutines_accounted", "handler_loops_receive_until_close", "locks_released_on_every_path")
 
 
 def props_split(ck):
@@ -163,7 +167,8 @@ def props_split(ck):
     ok_deps, _ = ck.coq_make(["proofs/ReadPathProofs.vo", "gen/GenGoroutinesReader.vo"])
     txt = ("From Coq Require Import List String.\nFrom Qryn Require Import model.ReaderGoroutines gen.GenGoroutinesReader.\n"
            "Eval vm_compute in (unaccounted reader_goroutines, stale reader_goroutines, map (recovers_at reader_goroutines) must_recover).\n"
-           "Eval vm_compute in (unaccounted_loops reader_loops).\n")
+           "Eval vm_compute in (unaccounted_loops reader_loops).\n"
+           "Eval vm_compute in (unaccounted_locks reader_locks).\n")
     rc, out = ck.coq_eval("C12_inventory", txt)
     flat = " ".join(out.split())
     parts = re.findall(r"= (.*?) : (?:list|\()", " " + flat)
@@ -171,6 +176,8 @@ def props_split(ck):
                   "(unaccounted goroutines, allow-listed sites that disappeared, must-recover sites recovering) " + (parts[0][:900] if parts else flat[:900]))
     ck.obligation("theorem handler_loops_receive_until_close", rc == 0 and len(parts) > 1 and parts[1].strip() == "nil",
                   "handler loops that can leave before their channel is closed and are not allow-listed: " + (parts[1][:900] if len(parts) > 1 else flat[-600:]))
+    ck.obligation("theorem locks_released_on_every_path", rc == 0 and len(parts) > 2 and parts[2].strip() == "nil",
+                  "Lock()/RLock() statements that some way out of their region does not give back: " + (parts[2][:900] if len(parts) > 2 else flat[-600:]))
     rest = src
     for t in GENERATED_THEOREMS:
         rest = re.sub(r"Theorem %s\b.*?Print Assumptions %s\.\n" % (t, t), "", rest, flags=re.S)
@@ -234,7 +241,7 @@ def run(ck):
         res = run_harness(ck, ["--cases", p], "replay") or []
         for c in res:
             print("REPLAY id=%s class=%s observed=%s %s" % (c["id"], c["class"], CODE_NAME.get(obs_code(c["obs"])), json.dumps(c["obs"])))
-            if obs_code(c["obs"]) in (3, 4, 5, 6, 7):
+            if obs_code(c["obs"]) in (3, 4, 5, 6, 7, 10):
                 ck.violation({"property": "C12", "kind": "replayed case still violates", "case": strip(c)})
         return
     cases = []
